@@ -1780,6 +1780,22 @@ class Deb822ParagraphElement(Deb822Element, Deb822ParagraphToStrWrapperMixin, AB
         # type: () -> Deb822ParagraphElement
         return self
 
+    def _last_kvpair_element(self):
+        # type: () -> Optional[Deb822KeyValuePairElement]
+        raise NotImplementedError  # pragma: no cover
+
+    def _add_final_newline_if_missing(self, last_kvpair=None):
+        # type: (Optional[Deb822KeyValuePairElement]) -> None
+        """Terminate the last field of the paragraph with a newline
+
+        Only the very last line of a file can lack its newline.  It must get
+        one when anything (a field, a paragraph) is placed after it.
+        """
+        if last_kvpair is None:
+            last_kvpair = self._last_kvpair_element()
+        if last_kvpair is not None:
+            last_kvpair.value_element.add_final_newline_if_missing()
+
     def order_last(self, field):
         # type: (ParagraphKey) -> None
         """Re-order the given field so it is "last" in the paragraph"""
@@ -2095,17 +2111,27 @@ class Deb822NoDuplicateFieldsParagraphElement(Deb822ParagraphElement):
         # type: () -> int
         return len(self._kvpair_elements)
 
+    def _last_kvpair_element(self):
+        # type: () -> Optional[Deb822KeyValuePairElement]
+        for last_field_name in reversed(self._kvpair_order):
+            return self._kvpair_elements[cast('_strI', last_field_name)]
+        return None
+
     def order_last(self, field):
         # type: (ParagraphKey) -> None
         """Re-order the given field so it is "last" in the paragraph"""
         unpacked_field, _, _ = _unpack_key(field, raise_if_indexed=True)
+        last_kvpair = self._last_kvpair_element()
         self._kvpair_order.order_last(unpacked_field)
+        self._add_final_newline_if_missing(last_kvpair)
 
     def order_first(self, field):
         # type: (ParagraphKey) -> None
         """Re-order the given field so it is "first" in the paragraph"""
         unpacked_field, _, _ = _unpack_key(field, raise_if_indexed=True)
+        last_kvpair = self._last_kvpair_element()
         self._kvpair_order.order_first(unpacked_field)
+        self._add_final_newline_if_missing(last_kvpair)
 
     def order_before(self, field, reference_field):
         # type: (ParagraphKey, ParagraphKey) -> None
@@ -2114,7 +2140,9 @@ class Deb822NoDuplicateFieldsParagraphElement(Deb822ParagraphElement):
         The reference field must be present."""
         unpacked_field, _, _ = _unpack_key(field, raise_if_indexed=True)
         unpacked_ref_field, _, _ = _unpack_key(reference_field, raise_if_indexed=True)
+        last_kvpair = self._last_kvpair_element()
         self._kvpair_order.order_before(unpacked_field, unpacked_ref_field)
+        self._add_final_newline_if_missing(last_kvpair)
 
     def order_after(self, field, reference_field):
         # type: (ParagraphKey, ParagraphKey) -> None
@@ -2124,7 +2152,9 @@ class Deb822NoDuplicateFieldsParagraphElement(Deb822ParagraphElement):
         """
         unpacked_field, _, _ = _unpack_key(field, raise_if_indexed=True)
         unpacked_ref_field, _, _ = _unpack_key(reference_field, raise_if_indexed=True)
+        last_kvpair = self._last_kvpair_element()
         self._kvpair_order.order_after(unpacked_field, unpacked_ref_field)
+        self._add_final_newline_if_missing(last_kvpair)
 
     def iter_keys(self):
         # type: () -> Iterable[ParagraphKey]
@@ -2170,6 +2200,9 @@ class Deb822NoDuplicateFieldsParagraphElement(Deb822ParagraphElement):
             # way
             key = value.field_name
         original_value = self._kvpair_elements.get(key)
+        if original_value is None:
+            # The new field goes after the field that is last so far
+            self._add_final_newline_if_missing()
         self._kvpair_elements[key] = value
         self._kvpair_order.append(key)
         if original_value is not None:
@@ -2230,6 +2263,10 @@ class Deb822DuplicateFieldsParagraphElement(Deb822ParagraphElement):
             else:
                 self._kvpair_elements[field_name].append(node)
 
+    def _last_kvpair_element(self):
+        # type: () -> Optional[Deb822KeyValuePairElement]
+        return self._kvpair_order.tail
+
     def _nodes_being_relocated(self, field):
         # type: (ParagraphKey) -> Tuple[List[KVPNode], List[KVPNode]]
         key, index, name_token = _unpack_key(field)
@@ -2249,6 +2286,7 @@ class Deb822DuplicateFieldsParagraphElement(Deb822ParagraphElement):
         """Re-order the given field so it is "last" in the paragraph"""
         nodes, nodes_being_relocated = self._nodes_being_relocated(field)
         assert len(nodes_being_relocated) == 1 or len(nodes) == len(nodes_being_relocated)
+        self._add_final_newline_if_missing()
 
         kvpair_order = self._kvpair_order
         for node in nodes_being_relocated:
@@ -2270,6 +2308,7 @@ class Deb822DuplicateFieldsParagraphElement(Deb822ParagraphElement):
         """Re-order the given field so it is "first" in the paragraph"""
         nodes, nodes_being_relocated = self._nodes_being_relocated(field)
         assert len(nodes_being_relocated) == 1 or len(nodes) == len(nodes_being_relocated)
+        self._add_final_newline_if_missing()
 
         kvpair_order = self._kvpair_order
         for node in nodes_being_relocated:
@@ -2298,6 +2337,7 @@ class Deb822DuplicateFieldsParagraphElement(Deb822ParagraphElement):
         reference_node = reference_nodes[0]
         if reference_node in nodes_being_relocated:
             raise ValueError("Cannot re-order a field relative to itself")
+        self._add_final_newline_if_missing()
 
         kvpair_order = self._kvpair_order
         for node in nodes_being_relocated:
@@ -2322,6 +2362,7 @@ class Deb822DuplicateFieldsParagraphElement(Deb822ParagraphElement):
         reference_node = reference_nodes[-1]
         if reference_node in nodes_being_relocated:
             raise ValueError("Cannot re-order a field relative to itself")
+        self._add_final_newline_if_missing()
 
         kvpair_order = self._kvpair_order
         # Use "reversed" to preserve the relative order of the nodes assuming a bulk reorder
@@ -2456,6 +2497,8 @@ class Deb822DuplicateFieldsParagraphElement(Deb822ParagraphElement):
                       " in the first place.  Please index-less key or ({key}, 0) if you" \
                       " want to add the field."
                 raise KeyError(msg.format(key=key, index=index))
+            # The new field goes after the field that is last so far
+            self._add_final_newline_if_missing()
             node = self._kvpair_order.append(value)
             if key not in self._kvpair_elements:
                 self._kvpair_elements[key] = [node]
@@ -2706,6 +2749,11 @@ class Deb822FileElement(Deb822Element):
         # to be sure.  Otherwise we would have to check that there is an empty line before that
         # comment and that is too much effort.
         if tail_element and not isinstance(tail_element, Deb822WhitespaceToken):
+            if isinstance(tail_element, Deb822ParagraphElement):
+                # Without this, the separator below would merely terminate the
+                # last line of a file that lacks its final newline and the two
+                # paragraphs would become one.
+                tail_element._add_final_newline_if_missing()
             self._token_and_elements.append(self._set_parent(Deb822WhitespaceToken('\n')))
         self._token_and_elements.append(self._set_parent(paragraph))
         paragraph.parent_element = self
